@@ -310,6 +310,8 @@ class Func(object):
             if isinstance(op, (ast.Is, ast.IsNot)) and isinstance(rhs, ast.Constant) and \
                     (rhs.value is None or rhs.value is True or rhs.value is False):
                 return '(.%s %s %s)' % ('isC' if isinstance(op, ast.Is) else 'isNotC', self.expr(n.left), self.const(rhs))
+            if isinstance(op, (ast.Is, ast.IsNot)) and not isinstance(rhs, ast.Constant):
+                return '(.%s %s %s)' % ('is' if isinstance(op, ast.Is) else 'isNot', self.expr(n.left), self.expr(rhs))
             self.fail('comparison outside the fragment', n)
         if isinstance(n, ast.Call):
             f = n.func
